@@ -16,6 +16,8 @@
 From Coq Require Import List Arith PeanoNat Bool.
 Import ListNotations.
 Require Import Verif.Base.Res Verif.Base.Cases Verif.gen.UFSeq.
+Require Export Verif.Table.Prelude.
+Require Verif.gen.TableFns.
 
 Definition row := list nat.
 Definition key := list nat.
@@ -166,8 +168,9 @@ Definition rehash (c : cfg) (t : T) : Res T :=
             (S (gen t)) (pins t) (prem t))
   else Panic.
 
+(** the guard is regenerated from [SortedWritesTable::maybe_rehash] (gen/TableFns.v) *)
 Definition maybe_rehash (c : cfg) (t : T) : Res T :=
-  if stale t <=? Nat.max 16 (length (rows t) / 2) then Ok t else rehash c t.
+  if TableFns.maybe_rehash_skip (stale t) (length (rows t)) then Ok t else rehash c t.
 
 (** [Table::merge] = do_delete; do_insert; maybe_rehash *)
 Definition merge (c : cfg) mf (t : T) : Res T :=
@@ -181,9 +184,7 @@ Definition clear (t : T) : T :=
   end.
 
 (** ** reads *)
-Inductive constr :=
-| CEq (l r : nat) | CEqC (c v : nat) | CLt (c v : nat) | CGt (c v : nat) | CLe (c v : nat) | CGe (c v : nat).
-
+(* [constr] is defined in Table/Prelude.v *)
 Definition eval_c (cn : constr) (r : row) : bool :=
   match cn with
   | CEq l r' => col r l =? col r r'
@@ -209,7 +210,9 @@ Definition scan_range (t : T) (lo hi : nat) : list (nat * row) :=
 Definition scan_cs (t : T) (cs : list constr) : list (nat * row) :=
   filter (fun p => eval_cs cs (snd p)) (scan_all t).
 
-(** [binary_search_sort_val] on a strictly increasing vector = first entry >= v *)
+(** SPECIFICATION of [binary_search_sort_val] on a strictly increasing vector = first entry >= v
+    (the executable model below runs the regenerated code; Table/GenLink.v proves it equal to
+    this linear search for every library binary search that meets its documented contract) *)
 Inductive bs_res := BOk (found bound : nat) | BErr (next : nat).
 Fixpoint bsearch (o : list (nat * nat)) (v next_row : nat) : bs_res :=
   match o with
@@ -220,8 +223,8 @@ Fixpoint bsearch (o : list (nat * nat)) (v next_row : nat) : bs_res :=
       else BErr s
   end.
 
-(** [Table::fast_subset]: a dense range, or None *)
-Definition fast_subset (c : cfg) (t : T) (cn : constr) : option (nat * nat) :=
+(** SPECIFICATION of [Table::fast_subset]: a dense range, or None *)
+Definition fast_subset_spec (c : cfg) (t : T) (cn : constr) : option (nat * nat) :=
   match sortc c with
   | None => None
   | Some sc =>
@@ -240,6 +243,15 @@ Definition fast_subset (c : cfg) (t : T) (cn : constr) : option (nat * nat) :=
           Some (match bsearch (offs t) v n with BOk f _ => (f, n) | BErr x => (x, n) end) else None
       end
   end.
+
+(** [Table::fast_subset] as regenerated from table/mod.rs (gen/TableFns.v: [fast_subset] and
+    [binary_search_sort_val]), run with the first-match instance of the library binary search *)
+Definition fast_subset_with (bs : list nat -> nat -> rres nat nat) (c : cfg) (t : T) (cn : constr)
+  : Res (option (nat * nat)) :=
+  TableFns.fast_subset bs (sortc c) (offs t) (length (rows t)) cn.
+Definition fast_subset := fast_subset_with lin_bs.
+
+Definition read_panic_mark : list (list nat) := [[4998]].
 
 (** ** operations and observations *)
 Inductive op :=
@@ -270,8 +282,9 @@ Definition read (c : cfg) (t : T) (o : op) : option (list (list nat)) :=
   | OScan => Some (enc (scan_all t))
   | OScanC cs => Some (enc (scan_cs t cs))
   | OFast cn => Some (match fast_subset c t cn with
-                      | None => []
-                      | Some (lo, hi) => [hi - lo] :: enc (scan_range t lo hi)
+                      | Ok None => []
+                      | Ok (Some (lo, hi)) => [hi - lo] :: enc (scan_range t lo hi)
+                      | _ => read_panic_mark
                       end)
   | OStat => Some [[length (rows t) - stale t; length (rows t); gen t]]
   | _ => None
@@ -320,12 +333,7 @@ Record D := mkD {
 
 Definition dempty : D := mkD [] [] [] [] false.
 
-Fixpoint assoc (l : list (nat * nat)) (k : nat) : option nat :=
-  match l with
-  | [] => None
-  | (a, b) :: tl => if a =? k then Some b else assoc tl k
-  end.
-
+(* [assoc] is defined in Table/Prelude.v *)
 Definition ffuel (p : list nat) (id : nat) : nat := Nat.max (length p) (S id).
 
 (** [insert_impl] *)
@@ -381,9 +389,9 @@ Fixpoint dscan_ids (d : D) (ids : list nat) (cs : list constr) : Res (list (nat 
 Definition count_lt (v : nat) (l : list (nat * nat)) : nat := length (filter (fun p => snd p <? v) l).
 Definition count_le (v : nat) (l : list (nat * nat)) : nat := length (filter (fun p => snd p <=? v) l).
 
-(** [fast_subset]; [timestamp_bounds v] on the ts-sorted vector = Ok(lo,hi) with lo = #{ts<v},
-    hi = #{ts<=v} when lo<hi, else Err(lo) *)
-Definition dfast (d : D) (cn : constr) : option (nat * nat) :=
+(** SPECIFICATION of [fast_subset]; [timestamp_bounds v] on the ts-sorted vector = Ok(lo,hi) with
+    lo = #{ts<v}, hi = #{ts<=v} when lo<hi, else Err(lo) *)
+Definition dfast_spec (d : D) (cn : constr) : option (nat * nat) :=
   let n := length (disp d) in
   let lo v := count_lt v (disp d) in
   let hi v := count_le v (disp d) in
@@ -398,6 +406,12 @@ Definition dfast (d : D) (cn : constr) : option (nat * nat) :=
   | CGe 2 v => Some (lo v, n)
   | _ => None
   end.
+
+(** [DisplacedTable::fast_subset] / [timestamp_bounds] as regenerated from uf/mod.rs; the two
+    linear loops of [timestamp_bounds] run at most [length displaced] iterations each *)
+Definition dfast_with (bs : list nat -> nat -> rres nat nat) (d : D) (cn : constr) : Res (option (nat * nat)) :=
+  TableFns.displaced_fast_subset bs (S (length (disp d))) (disp d) (lut d) cn.
+Definition dfast := dfast_with lin_bs.
 
 Inductive dop :=
 | DIns (a b ts : nat) | DMerge | DClear
@@ -417,8 +431,6 @@ Fixpoint drun (d : D) (ops : list dop) : Res D :=
   | o :: tl => bind (dstep d o) (fun d' => drun d' tl)
   end.
 
-Definition read_panic_mark : list (list nat) := [[4998]].
-
 Definition dread (d : D) (o : dop) : option (list (list nat)) :=
   let of_res (r : Res (list (list nat))) := match r with Ok x => x | _ => read_panic_mark end in
   match o with
@@ -427,9 +439,10 @@ Definition dread (d : D) (o : dop) : option (list (list nat)) :=
   | DScan => Some (of_res (bind (dscan_ids d (seq 0 (length (disp d))) []) (fun l => Ok (enc l))))
   | DScanC cs => Some (of_res (bind (dscan_ids d (seq 0 (length (disp d))) cs) (fun l => Ok (enc l))))
   | DFast cn => Some (match dfast d cn with
-                      | None => []
-                      | Some (lo, hi) =>
+                      | Ok None => []
+                      | Ok (Some (lo, hi)) =>
                           of_res (bind (dscan_ids d (seq lo (hi - lo)) []) (fun l => Ok ([hi - lo] :: enc l)))
+                      | _ => read_panic_mark
                       end)
   | DStat => Some [[length (disp d)]]
   | _ => None
